@@ -1,5 +1,7 @@
 import Sudachi.Proofs.Edit
+import Sudachi.Proofs.Partition
 import Sudachi.Props.C02
+import Sudachi.Model.TotalIO
 /-!
 # C01 — Morphemes partition the original text byte-for-byte (lossless surfaces)
 
@@ -127,5 +129,362 @@ example :
     Vit.WF F ∧ F.Pairwise (fun a b => a.b ≤ b.b) := by
   refine ⟨by decide, Or.inr ⟨by decide, by decide⟩,
     by intro n hn; simp at hn; rcases hn with rfl | rfl | rfl | rfl <;> decide, by decide⟩
+
+/-! ## the whole analysis: every mode, every plugin stack, every dictionary -/
+
+open Total Partition Oov in
+/-- **`tokens_partition_original` — the property for the whole of `do_tokenize`.**  `Total.tokenize .d6fix lv cfg orig` is
+the analysis as the driver executes it for C03's `pipe` lines (`start_build`, every input-text plugin followed by `commit`
+with either length guard `lv`, `build`, `build_lattice` over the configured providers and lexicon `cfg`, the `i32` lattice,
+`connect_eos`, `fill_top_path`, `resolve_best_path`, the word-info + path-rewrite stage `cfg.rewrite`, `split_path` with the
+repaired `NodeSplitIterator::next`).  The split MODE and the DICTIONARY enter through `cfg.lex` and through the unit
+lengths `cfg.rewrite` attaches to every token (none in mode C; ANY list of lengths in modes A/B — well-formedness of the
+split declarations is NOT assumed), the PLUGIN STACKS through `cfg.inputPlugins`, `cfg.providers`, `cfg.rewrite`.
+
+For every result `r` the analysis returns: either the normalised text is empty and there is no morpheme, or it is not
+empty, there is at least one morpheme, EVERY accessor of EVERY morpheme is defined (`Total.access`: `begin`, `end`,
+`begin_c`, `end_c`, `surface` — no index out of range, no `debug_assert`, no slice off a boundary: this is also the full
+statement `morpheme_access_total` that `C03.morpheme_offsets_defined_partial` leaves open), and the ranges
+`[begin, end)` are a partition of the ORIGINAL text (`IsPartition`: first begins at 0, each begins where the previous ended,
+last ends at the length, none backwards, all on character boundaries, slices concatenate to the text), `surface()` is the
+original text in `[begin, end)` and `begin_c`/`end_c` count the code points before `begin`/`end`.
+
+Hypotheses that remain, each of them necessary as far as I can see:
+* `horig`  the input begins with the first byte of a character (it is a `&str`);
+* `hplug`  `Partition.PluginOk`: every input-text plugin emits sorted, non-overlapping, in-range edits on character starts
+           and none on an empty text — `resolve_edits` checks none of it (C07 `*_edits_ok` for the bundled ones; third-party
+           plugins are outside);
+* `hutf`   the rewritten text has as many character starts as it decodes to characters (`modified` is a `String`; the
+           model's decoder does not look at continuation bytes);
+* `hmk`    the buffer is the modelled `InputBuffer::build` (gives candidates inside the text; C13 `built_buffer_well_formed`);
+* `hrowsz` fewer than 65536 candidates end at one boundary (`u16` row index of the back-pointer, nothing in the code
+           enforces it: `C03.u16_cast_wraps_counterexample`);
+* `hrew`   the word-info / path-rewrite stage maps a tiling by forward tokens on character starts to such a tiling —
+           discharged for every configured stack of `JoinNumericPlugin`/`JoinKatakanaOovPlugin` by C14
+           (`rewrite_stack_tiles` below) and for the stage without plugin (`pipe_tokens_partition`).
+No hypothesis on costs, on the connection matrix, on the length of the text or on the shape of the dictionary. -/
+theorem tokens_partition_original (lv : LenV) (cfg : Cfg) (orig : List Nat) (horig : BoOf orig 0)
+    (hplug : ∀ p ∈ cfg.inputPlugins, PluginOk orig p)
+    (hutf : ∀ l0 l chars, startBuild orig = some l0 → rewriteInput lv cfg.inputPlugins l0 = .ok l →
+      Wire.utf8Decode (textOf l) = some chars → chars.length = nchars (textOf l))
+    (rv : Oov.Variant) (bowFix : Bool) (tab : List (Nat × Nat))
+    (hmk : ∀ chars, Oov.mkBufV rv bowFix tab chars = some (cfg.mkBuf chars))
+    (hrowsz : ∀ chars nodes, Reaches lv cfg orig chars → Oov.buildLattice cfg.providers cfg.lex (cfg.mkBuf chars) = .ok nodes →
+      ∀ e, (nodes.map toVit).countP (fun n => n.e == e) ≤ 65535)
+    (hrew : ∀ (tb2c tc2b : List Nat) (nc nb : Nat) path path', PathOk tb2c tc2b nc nb path → cfg.rewrite path = .ok path' →
+      PathOk tb2c tc2b nc nb (path'.map (·.1)))
+    (r : Result) (h : tokenize .d6fix lv cfg orig = .ok r) :
+    (textOf r.tables = [] ∧ r.morphs = []) ∨
+    (textOf r.tables ≠ [] ∧ r.morphs ≠ [] ∧ ∃ acs, accessAll orig r = .ok acs ∧
+      IsPartition orig (acs.map (fun a => (a.b, a.e))) ∧
+      ∀ a ∈ acs, a.sb = a.b ∧ a.se = a.e ∧ a.bc = nchars (orig.take a.b) ∧ a.ec = nchars (orig.take a.e)) := by
+  unfold tokenize at h
+  cases h0 : startBuild orig with
+  | none => rw [h0] at h; simp at h
+  | some l0 =>
+    rw [h0] at h; simp only [] at h
+    cases h1 : rewriteInput lv cfg.inputPlugins l0 with
+    | err k => rw [h1] at h; simp at h
+    | panic w' => rw [h1] at h; simp at h
+    | ok l =>
+      rw [h1] at h; simp only [] at h
+      obtain ⟨hbuf, hlen⟩ := rewriteInput_inv lv orig horig cfg.inputPlugins l0 l hplug (startBuild_bufInv orig l0 h0) h1
+      cases h2 : Wire.utf8Decode (textOf l) with
+      | none => rw [h2] at h; simp at h
+      | some chars =>
+        rw [h2] at h; simp only [] at h
+        split at h
+        · -- no character: no morpheme; the text is empty
+          rename_i hemp
+          cases h
+          left
+          refine ⟨?_, rfl⟩
+          have hc : chars = [] := by simpa using hemp
+          subst hc
+          cases ht : textOf l with
+          | nil => rfl
+          | cons b0 rest => rw [ht] at h2; exact absurd h2 (utf8Decode_cons_ne_nil b0 rest)
+        · rename_i hne0
+          right
+          have hne : chars.isEmpty = false := by
+            cases hc : chars.isEmpty with
+            | true => exact absurd hc hne0
+            | false => rfl
+          have hpos : 1 ≤ chars.length := by
+            cases chars with
+            | nil => simp at hne
+            | cons _ _ => simp
+          have hr : Reaches lv cfg orig chars := ⟨l0, l, h0, h1, h2⟩
+          have hb := mkBufV_ok rv bowFix tab chars (cfg.mkBuf chars) (hmk chars)
+          have hnc := hutf l0 l chars h0 h1 h2
+          have htne : textOf l ≠ [] := by
+            intro hn; rw [hn] at hnc
+            have : nchars ([] : List Nat) = 0 := rfl
+            omega
+          have hinv : Inv isStart (BoOf orig) orig.length l := by
+            rcases hbuf with hi | he
+            · exact hi
+            · exact absurd he htne
+          have horne : orig ≠ [] := by
+            intro hn
+            subst hn
+            have e0 : textOf l0 = [] := by
+              unfold startBuild at h0
+              simp only [List.length_nil, MAX_LENGTH] at h0
+              cases h0; rfl
+            exact htne (rewriteInput_empty lv [] cfg.inputPlugins l0 l hplug e0 h1)
+          -- the tables of the rewritten text
+          obtain ⟨b0, rest, htb⟩ : ∃ b0 rest, textOf l = b0 :: rest := by
+            cases ht : textOf l with
+            | nil => exact absurd ht htne
+            | cons b0 rest => exact ⟨b0, rest, rfl⟩
+          have hs0 : isStart b0 = true := isStart_head_of_utf8 b0 rest chars (by rw [← htb]; exact h2)
+          have htab := tablesOk_of_text (textOf l) b0 rest htb hs0
+          have hbo0 : BoOf (textOf l) 0 := Or.inr ⟨by rw [htb]; simp, by simp [htb, hs0]⟩
+          have hnb : (textOf l).length ≤ 65535 := hlen
+          have hncb : nchars (textOf l) ≤ 65535 := by
+            have : nchars (textOf l) ≤ (textOf l).length := by unfold nchars; exact List.length_filter_le _ _
+            omega
+          cases h3 : Oov.buildLattice cfg.providers cfg.lex (cfg.mkBuf chars) with
+          | err k => rw [h3] at h; simp at h
+          | panic w' => rw [h3] at h; simp at h
+          | ok nodes =>
+            rw [h3] at h; simp only [] at h
+            have hnodes : ∀ n ∈ nodes.map toVit, n.b < n.e ∧ n.e ≤ chars.length := by
+              intro n hn
+              obtain ⟨x, hx, rfl⟩ := List.mem_map.mp hn
+              obtain ⟨a1, a2⟩ := buildLattice_cand cfg.providers cfg.lex (cfg.mkBuf chars) hb.2.1 nodes h3 x hx
+              rw [hb.2.2] at a2
+              simp only [toVit]
+              rw [asU16_id x.b (by omega), asU16_id x.e (by omega)]
+              exact ⟨a1, a2⟩
+            cases h4 : buildAll addI32 I32_MAX cfg.conn (nodes.map toVit) (reset chars.length) [] with
+            | err k => rw [h4] at h; simp at h
+            | panic w' => rw [h4] at h; simp at h
+            | ok r4 =>
+              obtain ⟨rows, ents⟩ := r4
+              rw [h4] at h; simp only [] at h
+              cases h5 : connectEos addI32 I32_MAX cfg.conn rows chars.length with
+              | err k => rw [h5] at h; simp at h
+              | panic w' => rw [h5] at h; simp at h
+              | ok r5 =>
+                obtain ⟨c, pe, pi⟩ := r5
+                rw [h5] at h; simp only [] at h
+                have hpinv := buildAll_pathInv addI32 cfg.conn chars.length (by omega) (nodes.map toVit) (reset chars.length) []
+                  rows ents (reset_pathInv chars.length _ (hrowsz chars nodes hr h3)) hnodes h4
+                obtain ⟨hpe, row, p, q1, q2, q3⟩ := connectEos_ptr addI32 cfg.conn chars.length (by omega) rows hpinv c pe pi h5
+                rw [hpe] at h
+                obtain ⟨es, g1, g2, g3⟩ := topPath_chain chars.length rows hpinv chars.length (chars.length + 1) pi p [] row
+                  hpos (by omega) q1 q2 q3
+                rw [List.append_nil] at g1
+                rw [g1] at h; simp only [] at h
+                cases h7 : mapM (resultNode (c2b (textOf l))) es with
+                | err k => rw [h7] at h; simp at h
+                | panic w' => rw [h7] at h; simp at h
+                | ok path =>
+                  rw [h7] at h; simp only [] at h
+                  rw [hnc] at g2
+                  obtain ⟨t1, t2⟩ := resultNodes_tiles (b2c (textOf l)) (c2b (textOf l)) _ _ htab hnb (c2b_last (textOf l))
+                    es 0 0 path g2 (c2b_head (textOf l) hbo0) h7
+                  have hpath : PathOk (b2c (textOf l)) (c2b (textOf l)) (nchars (textOf l)) (textOf l).length path := ⟨t1, t2⟩
+                  cases h8 : cfg.rewrite path with
+                  | err k => rw [h8] at h; simp at h
+                  | panic w' => rw [h8] at h; simp at h
+                  | ok path' =>
+                    rw [h8] at h; simp only [] at h
+                    obtain ⟨u1, u2⟩ := hrew _ _ _ _ path path' hpath h8
+                    cases h9 : splitPath .d6fix (b2c (textOf l)) (c2b (textOf l)) path' with
+                    | err k => rw [h9] at h; simp at h
+                    | panic w' => rw [h9] at h; simp at h
+                    | ok ms =>
+                      rw [h9] at h; simp only [] at h
+                      cases h
+                      have hle : ∀ n ∈ path'.map (·.1), Good (b2c (textOf l)) (c2b (textOf l)) n ∧ n.eb ≤ (textOf l).length := by
+                        intro n hn
+                        refine ⟨u2 n hn, ?_⟩
+                        have hm : n.eb ∈ c2b (textOf l) := List.mem_of_getElem? (u2 n hn).2.2.2.2
+                        rcases (c2b_spec (textOf l)).2 n.eb hm with e1 | ⟨e1, _⟩ <;> omega
+                      obtain ⟨v1, v2⟩ := splitPath_d6fix_tiles _ _ _ _ htab hnb hncb path' ms 0 0 _ _ h9 u1 hle
+                      have hmsne : ms ≠ [] := by
+                        intro hn; subst hn
+                        obtain ⟨e1, _⟩ := v1
+                        omega
+                      obtain ⟨acs, w1, w2, w3⟩ := pathOk_partition orig horne horig l hinv _ ms hmsne ⟨v1, v2⟩
+                      exact ⟨htne, hmsne, acs, w1, w2, w3⟩
+
+open Total Partition Oov in
+/-- **`hrew` is a theorem for every configured stack of path-rewrite plugins** (C14 composed): with the word-info /
+path-rewrite stage built from the C14 model (`Total.rewriteOfStack`: `JoinNumericPlugin` in either variant of its loop,
+`JoinKatakanaOovPlugin`, any settings, any class table, any numeric parser, any order) a tiling by forward tokens on
+character starts stays one — merged tokens begin where their block begins and end where it ends
+(`Rewrite.rewriteAll_coarsens`, C14 `rewrite_stack_coarsens`/`text_preserved`).  `hinfo`: the word-info look-up leaves the
+four offsets of a node alone. -/
+theorem rewrite_stack_tiles (nv : Rewrite.NVariant) (cat : List Nat) (P : List Char → Rewrite.POut)
+    (pls : List Rewrite.Plugin) (info : EditM.NodeRange → Rewrite.Node) (units : Rewrite.Node → List Nat)
+    (hinfo : ∀ n, rng (info n) = n) (tb2c tc2b : List Nat) (nc nb : Nat)
+    (path : List EditM.NodeRange) (path' : List (EditM.NodeRange × List Nat))
+    (hp : PathOk tb2c tc2b nc nb path) (h : rewriteOfStack nv cat P pls info units path = .ok path') :
+    PathOk tb2c tc2b nc nb (path'.map (·.1)) :=
+  rewriteOfStack_pathOk nv cat P pls info units hinfo tb2c tc2b nc nb path path' hp h
+
+open Total Partition Oov in
+/-- **`tokens_partition_original` for the configuration a `pipe` case line is executed with** (`TotalIO.mkCfg`: the SAME
+instance of the SAME function the driver runs against the real tokenizer in the C03 correspondence stream): `hmk` (buffer
+over the compiled `char.def`) and `hrew` (word-info stage without path-rewrite plugin, ANY unit table = any split mode and
+any — also ill-formed — split declarations) are discharged; `hutf` is stated in its honest form: the rewritten text IS the
+UTF-8 encoding of the characters it decodes to (`Partition.nchars_encode`). -/
+theorem pipe_tokens_partition (lv : LenV) (orig : List Nat) (horig : BoOf orig 0)
+    (plugins : List (List Nat → Outcome (List (Edit Nat)))) (rv : Oov.Variant) (bowFix : Bool)
+    (rs : List CharCat.CatRange) (ps : List Oov.Provider) (lex : List Oov.Word) (conn : Nat → Nat → Int)
+    (units : EditM.NodeRange → List Nat)
+    (hplug : ∀ p ∈ plugins, PluginOk orig p)
+    (hutf : ∀ l0 l chars, startBuild orig = some l0 → rewriteInput lv plugins l0 = .ok l →
+      Wire.utf8Decode (textOf l) = some chars → textOf l = TotalIO.encode chars)
+    (hrowsz : ∀ chars nodes, Reaches lv (TotalIO.mkCfg plugins rv bowFix rs ps lex conn units) orig chars →
+      Oov.buildLattice ps lex (TotalIO.mkBufOf rv bowFix (CharCat.compile rs) chars) = .ok nodes →
+      ∀ e, (nodes.map toVit).countP (fun n => n.e == e) ≤ 65535)
+    (r : Result) (h : tokenize .d6fix lv (TotalIO.mkCfg plugins rv bowFix rs ps lex conn units) orig = .ok r) :
+    (textOf r.tables = [] ∧ r.morphs = []) ∨
+    (textOf r.tables ≠ [] ∧ r.morphs ≠ [] ∧ ∃ acs, accessAll orig r = .ok acs ∧
+      IsPartition orig (acs.map (fun a => (a.b, a.e))) ∧
+      ∀ a ∈ acs, a.sb = a.b ∧ a.se = a.e ∧ a.bc = nchars (orig.take a.b) ∧ a.ec = nchars (orig.take a.e)) := by
+  refine tokens_partition_original lv _ orig horig hplug ?_ rv bowFix (CharCat.compile rs) ?_ hrowsz ?_ r h
+  · intro l0 l chars a1 a2 a3
+    rw [hutf l0 l chars a1 a2 a3, nchars_encode]
+  · intro chars
+    show _ = some (TotalIO.mkBufOf rv bowFix (CharCat.compile rs) chars)
+    unfold TotalIO.mkBufOf
+    rw [mkBufV_compile_total rv bowFix rs chars]
+  · intro tb2c tc2b nc nb path path' hp hh
+    simp only [TotalIO.mkCfg, TotalIO.rewriteOf] at hh
+    cases hh
+    rw [List.map_map]
+    have : ((fun x : EditM.NodeRange × List Nat => x.1) ∘ fun n => (n, units n)) = id := rfl
+    rw [this, List.map_id]
+    exact hp
+
+/-- **Tokens straight from a RECYCLED lattice partition the original text** (C02 `recycled_path_contiguous` composed with
+`surfaces_partition`): `s` is ANY previous state of `struct Lattice` (rows of an earlier, longer or shorter text, a stale
+`eos`); after `reset`, the inserts of the candidates `F` of the rewritten text and a successful `connect_eos`
+(`Vit.analyse … = some (s3, true)`) the nodes `resolve_best_path` reads through the STORED back-pointers, with their byte
+ends read from `mod_c2b`, cut the original text into surfaces that concatenate to it, start at 0, end at its length and
+lie on character boundaries — `lattice_tokens_partition` for a long-lived tokenizer (what seeded change C02b and the
+recycled-analyser cases of the harness are about). -/
+theorem recycled_lattice_tokens_partition (o : List Nat) (hne : o ≠ []) (h0 : BoOf o 0)
+    (bs : List (List (Edit Nat))) (l : List (P Nat))
+    (hok : BatchesOk isStart (identFrom 0 o) bs) (lv : LenV) (h : commitAllV lv (identFrom 0 o) bs = some l)
+    (hstart : BoOf (textOf l) 0) (hpos : 0 < nchars (textOf l))
+    (conn : Nat → Nat → Int) (s : Vit.Lat) (F : List Vit.Node) (hwf : Vit.WF F)
+    (hs : F.Pairwise (fun a b => a.b ≤ b.b)) (hF : ∀ n ∈ F, n.e ≤ nchars (textOf l))
+    (s3 : Vit.Lat) (ha : Vit.analyse conn s (nchars (textOf l)) F = some (s3, true)) :
+    ∃ p, Vit.resolvePath s3 = some p ∧
+      let cuts := (p.map (·.1)).map (fun n => ((c2b (textOf l))[n.e]?).getD 0)
+      (pieces o 0 (cuts.map (valAt l))).flatten = o ∧
+      valAt l 0 = 0 ∧
+      valAt l ((0 :: cuts).getLast (by simp)) = o.length ∧
+      (∀ c ∈ cuts, BoOf o (valAt l c)) ∧
+      (∀ c ∈ cuts, valAt l c ≤ o.length) := by
+  have hi := commitAllV_inv lv isStart (BoOf o) o.length h0 bs _ l (ident_inv o hne) hok h
+  have hlenl := shape_length hi.shape
+  obtain ⟨p, hp, _, _, hmono, hlast, hin⟩ := C02.recycled_path_contiguous conn s (nchars (textOf l)) hpos F hwf hs hF s3 ha
+    (c2b (textOf l)) (c2b_spec (textOf l)).1 (by rw [c2b_length]; omega)
+  simp only [c2b_head (textOf l) hstart, c2b_last (textOf l), Option.getD_some] at hmono hlast
+  refine ⟨p, hp, ?_⟩
+  intro cuts
+  have hbo : ∀ c ∈ cuts, BoOf (textOf l) c := by
+    intro c hc
+    obtain ⟨n, hn, rfl⟩ := List.mem_map.mp hc
+    obtain ⟨x, hx, rfl⟩ := List.mem_map.mp hn
+    have hlt := hin x hx
+    rw [List.getElem?_eq_getElem hlt, Option.getD_some]
+    exact (c2b_spec (textOf l)).2 _ (List.getElem_mem hlt)
+  have hle : ∀ c ∈ cuts, c ≤ (textOf l).length := by
+    intro c hc
+    rcases hbo c hc with h1 | ⟨h1, _⟩ <;> omega
+  obtain ⟨r1, r2, r3, r4, r5⟩ := surfaces_partition o hne h0 bs l hok lv h cuts hmono hlast
+    (fun c hc hlt => isB_of_boOf hi.shape c (hbo c hc) hlt)
+  exact ⟨r1, r2, r3, fun c hc => r4 c hc (by have := hle c hc; omega), fun c hc => r5 c hc (hle c hc)⟩
+
+/-! ### non-vacuity of the hypotheses of `tokens_partition_original` -/
+
+open Total Partition Oov in
+/-- `hplug`: `PluginOk` is satisfied by a plugin that changes the text (`bang` appends `!` to a non-empty text: an insertion
+at the end, the byte length changes) and by one that returns no edit -/
+example (orig : List Nat) : PluginOk orig bang ∧ PluginOk orig (fun _ => .ok []) :=
+  ⟨bang_ok orig, ⟨fun l es _ h => by cases h; exact ⟨Nat.zero_le _, fun ed hed => by cases hed⟩, fun es h => by cases h; rfl⟩⟩
+
+open Total Partition Oov in
+/-- `hutf`, `hmk`, `hrowsz`, `hrew` hold together with `horig`, `hplug` for `Partition.partCfg` (plugin `bang`; words `a`,
+`ab`; Simple provider; a word-info stage that declares the ILL-FORMED units `[1, 9]` for every two-character token) on the
+text `ab`, either length guard -/
+example (lv : LenV) :
+    BoOf [97, 98] 0 ∧ (∀ p ∈ partCfg.inputPlugins, PluginOk [97, 98] p) ∧
+    (∀ l0 l chars, startBuild [97, 98] = some l0 → rewriteInput lv partCfg.inputPlugins l0 = .ok l →
+      Wire.utf8Decode (textOf l) = some chars → chars.length = nchars (textOf l)) ∧
+    (∀ chars, Oov.mkBufV .forward true [] chars = some (partCfg.mkBuf chars)) ∧
+    (∀ chars nodes, Reaches lv partCfg [97, 98] chars → Oov.buildLattice partCfg.providers partCfg.lex (partCfg.mkBuf chars) = .ok nodes →
+      ∀ e, (nodes.map toVit).countP (fun n => n.e == e) ≤ 65535) ∧
+    (∀ (tb2c tc2b : List Nat) (nc nb : Nat) path path', PathOk tb2c tc2b nc nb path → partCfg.rewrite path = .ok path' →
+      PathOk tb2c tc2b nc nb (path'.map (·.1))) := by
+  have hmk : ∀ chars, Oov.mkBufV .forward true [] chars = some (partCfg.mkBuf chars) :=
+    fun chars => mkBufV_total .forward true [] (by simp [CharCat.fsts, CharCat.SInc]) chars
+  have hl : ∀ l0 l, startBuild [97, 98] = some l0 → rewriteInput lv partCfg.inputPlugins l0 = .ok l →
+      textOf l = [97, 98, 33] := by
+    intro l0 l a1 a2
+    have e0 : l0 = identFrom 0 [97, 98] := by
+      simp [startBuild, MAX_LENGTH] at a1; exact a1.symm
+    subst e0
+    have : rewriteInput lv [bang] (identFrom 0 [97, 98]) = .ok [(some 97, 0), (some 98, 1), (some 33, 2), (none, 2)] := by
+      cases lv <;> decide
+    simp only [partCfg] at a2
+    rw [this] at a2; cases a2; rfl
+  refine ⟨Or.inr ⟨by decide, by decide⟩, ?_, ?_, hmk, ?_, ?_⟩
+  · intro p hp
+    simp only [partCfg, List.mem_singleton] at hp
+    subst hp; exact bang_ok _
+  · intro l0 l chars a1 a2 a3
+    rw [hl l0 l a1 a2] at a3 ⊢
+    simp [Wire.utf8Decode] at a3
+    subst a3; decide
+  · intro chars nodes hr hn e
+    obtain ⟨l0, l, a1, a2, a3⟩ := hr
+    rw [hl l0 l a1 a2] at a3
+    simp [Wire.utf8Decode] at a3
+    subst a3
+    have hb := mkBufV_ok .forward true [] [97, 98, 33] _ (hmk [97, 98, 33])
+    refine rows_small 8 _ _ _ hb.1 (by rw [hb.2.2]; decide) ?_ ?_ (by decide) nodes hn e
+    · intro p hp
+      simp only [partCfg, List.mem_singleton] at hp
+      subst hp
+      exact ⟨builtBuf_nil_bow .forward true _, by omega⟩
+    · intro w hw
+      simp only [partCfg, List.mem_cons, List.not_mem_nil, or_false] at hw
+      rcases hw with rfl | rfl <;> simp
+  · intro tb2c tc2b nc nb path path' hp hh
+    simp only [partCfg] at hh
+    cases hh
+    rw [List.map_map]
+    have : ((fun x : EditM.NodeRange × List Nat => x.1) ∘ fun n : EditM.NodeRange => (n, if n.ec = n.bc + 2 then [1, 9] else [])) = id := rfl
+    rw [this, List.map_id]
+    exact hp
+
+open Total Partition Oov in
+/-- … and the analysis of `ab` with that configuration: the text becomes `ab!`, the lattice path is `ab | !`, the
+ill-formed units `[1, 9]` of `ab` are clamped (`a | b`), and the accessors give the partition `[0,1) [1,2) [2,2)` of the
+ORIGINAL text — the inserted `!` is a morpheme with an empty range, which the property permits -/
+example : (match tokenize .d6fix .final partCfg [97, 98] with
+    | .ok r => (match accessAll [97, 98] r with | .ok acs => acs.map (fun a => (a.b, a.e, a.bc, a.ec, a.sb, a.se)) | _ => [])
+    | _ => []) = [(0, 1, 0, 1, 0, 1), (1, 2, 1, 2, 1, 2), (2, 2, 2, 2, 2, 2)] := by
+  have h1 : rewriteInput .final [bang] (identFrom 0 [97, 98]) = .ok [(some 97, 0), (some 98, 1), (some 33, 2), (none, 2)] := by decide
+  simp [tokenize, startBuild, MAX_LENGTH, partCfg, h1, textOf, Wire.utf8Decode, builtBuf,
+    CharCat.denF, CharCat.DEFAULT, Oov.fillCatContinuity, Oov.fillCatContinuityForward, Oov.scan, Oov.countdown]
+  decide
+
+open Total Partition in
+/-- non-vacuity of `rewrite_stack_tiles`/`hinfo` and of `recycled_lattice_tokens_partition`'s extra hypothesis: a word-info
+look-up that keeps the four offsets; `nchars` of `あい人` is positive -/
+example : (∀ n : EditM.NodeRange, rng (⟨n.bc, n.ec, n.bb, n.eb, 0, 0, 0, 0, 0, 0, 0, 0, [], [], [], [], [], [], [], []⟩ : Rewrite.Node) = n) ∧
+    0 < nchars [0xE3, 0x81, 0x82, 0xE3, 0x81, 0x84, 0xE4, 0xBA, 0xBA] :=
+  ⟨fun _ => rfl, by decide⟩
 
 end C01
